@@ -1,6 +1,7 @@
 (* Property codec on the generated tables: a valid assignment is accepted (and keeps the object well formed);
    unknown names, properties not allowed for the packet type and out-of-range values are rejected at
-   assignment or by pack() - with the open findings as `_refuted` witnesses and explicit exclusions. *)
+   assignment or by pack() - integers in full; strings / repetition with the open findings F-C17f, g, h as
+   `_refuted` witnesses. *)
 From Coq Require Import String.
 From PahoV Require Import Base.Prelude Codec.StrBytes Codec.Utf8 Codec.VBI Codec.VBIProofs Codec.ReasonSpec
   Codec.PropSpec Codec.Props5 Codec.Props5Defs Codec.Props5Lemmas Codec.Props5Pack Codec.Props5Unpack
@@ -26,7 +27,6 @@ Qed.
 Lemma c17_setattr_valid pt st n i name v :
   In (n, i) (t_names GT) -> compress name = compress n -> 0 <= pt < 128 ->
   spec_allowed pt i = true -> spec_value_ok i v = true ->
-  (forall x, v = VInt x -> i = 39 -> x <= 268435455) ->      (* exclusion F-C17b *)
   wf_state GT pt st = true ->
   exists st', setattr GT pt st name (One v) = Ok st' /\ wf_state GT pt st' = true
     /\ assoc i st' = Some (if memz i (t_multi GT)
@@ -34,15 +34,12 @@ Lemma c17_setattr_valid pt st n i name v :
                            else One v)
     /\ forall j, j <> i -> assoc j st' = assoc j st.
 Proof.
-  intros I Hn Hp Ha Hv Hx HW.
+  intros I Hn Hp Ha Hv HW.
   destruct (tables_ok_row GT n i tables_ok_GT I) as [F1 F2 F3 F4 F5 (ty & pts & w & F6 & F7 & F8)].
   pose proof (allowed_pts pt i ty pts Hp F6) as E. rewrite Ha in E.
   unfold spec_value_ok in Hv. rewrite F7 in Hv. apply andb_true_iff in Hv as [Hfit Hrng].
   assert (HR : code_range_ok GT i v = true).
-  { rewrite (code_range_vs_spec i w v n I F7 Hfit). destruct (memz i flag_ids); [reflexivity|].
-    rewrite Hrng. cbn [andb]. destruct v as [x|s|a b]; try reflexivity.
-    destruct (i =? 39) eqn:E39; [|reflexivity]. cbn [negb orb]. apply Z.eqb_eq in E39.
-    specialize (Hx x eq_refl E39). lia. }
+  { rewrite (code_range_vs_spec i w v n I F7 Hfit). exact Hrng. }
   rewrite (setattr_single GT pt st n i name ty pts v tables_ok_GT I Hn F6). rewrite E. cbn [negb].
   unfold code_range_ok in HR. rewrite F2 in HR.
   destruct (range_check (t_groups GT) (compress n) v) as [[]| |]; try discriminate.
@@ -93,14 +90,13 @@ Proof.
 Qed.
 
 (* out-of-range integer, assigned as a single value: refused by __setattr__ or at the latest by pack();
-   never bytes.  Exclusion F-C17e: the five CONNACK flags (36, 37, 40, 41, 42). *)
-Lemma c17_rejects_int_partial pt st n i name x st' b :
+   never bytes *)
+Lemma c17_rejects_int pt st n i name x st' b :
   In (n, i) (t_names GT) -> compress name = compress n ->
-  memz i flag_ids = false ->                                  (* exclusion F-C17e *)
   spec_value_ok i (VInt x) = false ->
   setattr GT pt st name (One (VInt x)) = Ok st' -> pack GT st' <> Ok b.
 Proof.
-  intros I Hn Hfl Hbad HS HP.
+  intros I Hn Hbad HS HP.
   destruct (tables_ok_row GT n i tables_ok_GT I) as [F1 F2 F3 F4 F5 (ty & pts & w & F6 & F7 & F8)].
   rewrite (setattr_single GT pt st n i name ty pts _ tables_ok_GT I Hn F6) in HS.
   destruct (negb (memz pt pts)); [destruct ((- t_npackets GT <=? pt) && (pt <? t_npackets GT)); discriminate|].
@@ -109,7 +105,7 @@ Proof.
   unfold spec_value_ok in Hbad. rewrite F7 in Hbad.
   destruct (spec_fits w (VInt x)) eqn:Hfit.
   - (* fits the type but outside the specification's range: __setattr__ would have refused *)
-    rewrite (code_range_vs_spec i w _ n I F7 Hfit), Hfl in HR. cbn [andb] in Hbad. rewrite Hbad in HR. discriminate.
+    rewrite (code_range_vs_spec i w _ n I F7 Hfit) in HR. cbn [andb] in Hbad. rewrite Hbad in HR. discriminate.
   - (* does not fit the type: writeProperty refuses *)
     assert (HV : exists S, assoc i st' = Some S /\ In (VInt x) (values_of S)
                             /\ (memz i (t_multi GT) = false -> S = One (VInt x))).
@@ -144,6 +140,7 @@ Proof.
   destruct (tables_ok_row GT n i tables_ok_GT I) as [F1 F2 F3 F4 F5 (ty & pts & w & F6 & F7 & F8)].
   rewrite (setattr_list GT pt st n i name ty pts l tables_ok_GT I Hn F6) in HS.
   destruct (negb (memz pt pts)); [destruct ((- t_npackets GT <=? pt) && (pt <? t_npackets GT)); discriminate|].
+  destruct (range_check_all (t_groups GT) (compress n) l) as [[]| |]; try discriminate.
   rewrite Mu in HS. injection HS as <-.
   destruct (pack_ok_inv GT _ b n i (Many l) tables_ok_GT HP I (assoc_store_same i _ st)) as (ty' & pts' & e & A' & W).
   assert (ty' = wtype_index w) by congruence. subst ty'. rewrite Mu in W. cbn [write_stored] in W.
@@ -156,32 +153,35 @@ Proof.
   destruct ((0 <=? wtype_index w) && (wtype_index w <=? 5)) eqn:E5; [discriminate|]. lia.
 Qed.
 
-(* a list assigned to Subscription Identifier: every element outside 0..268 435 455 is refused by pack();
-   (0 itself is not: F-C17c) *)
-Lemma c17_rejects_subid_list_partial pt st name l st' b x :
-  compress name = compress (bytes_of "Subscription Identifier") ->
-  In (VInt x) l -> (x < 0 \/ x > 268435455) ->
+(* a list assigned to any property: an out-of-range integer element is refused by __setattr__ (the checks
+   run for every element) or at the latest by pack(); never bytes *)
+Lemma c17_rejects_list_int pt st n i name l x st' b :
+  In (n, i) (t_names GT) -> compress name = compress n ->
+  In (VInt x) l -> spec_value_ok i (VInt x) = false ->
   setattr GT pt st name (Many l) = Ok st' -> pack GT st' <> Ok b.
 Proof.
-  intros Hn Hin Hx HS HP.
-  assert (I : In (bytes_of "Subscription Identifier", 11) (t_names GT)).
-  { apply in_names_b. vm_compute. reflexivity. }
-  destruct (tables_ok_row GT _ 11 tables_ok_GT I) as [F1 F2 F3 F4 F5 (ty & pts & w & F6 & F7 & F8)].
-  rewrite (setattr_list GT pt st _ 11 name ty pts l tables_ok_GT I Hn F6) in HS.
+  intros I Hn Hin Hbad HS HP.
+  destruct (memz i (t_multi GT)) eqn:Mu; [|exact (c17_rejects_list_nonrepeatable pt st n i name l st' b I Hn Mu HS HP)].
+  destruct (tables_ok_row GT n i tables_ok_GT I) as [F1 F2 F3 F4 F5 (ty & pts & w & F6 & F7 & F8)].
+  rewrite (setattr_list GT pt st n i name ty pts l tables_ok_GT I Hn F6) in HS.
   destruct (negb (memz pt pts)); [destruct ((- t_npackets GT <=? pt) && (pt <? t_npackets GT)); discriminate|].
-  change (memz 11 (t_multi GT)) with true in HS.
-  assert (HV : exists S, assoc 11 st' = Some (Many S) /\ In (VInt x) S).
-  { destruct (assoc 11 st) as [[u|old]|]; try discriminate.
-    - inv HS. rewrite assoc_store_same. eexists. split; [reflexivity|]. apply in_or_app. right. exact Hin.
-    - inv HS. rewrite assoc_store_same. eexists. split; [reflexivity|]. exact Hin. }
-  destruct HV as (S & AS & HinS).
-  destruct (pack_ok_inv GT st' b _ 11 _ tables_ok_GT HP I AS) as (ty' & pts' & e & A' & W).
-  change (memz 11 (t_multi GT)) with true in W. cbn [write_stored] in W.
-  destruct (write_many_in_inv _ _ _ _ _ W HinS) as [e' He'].
-  destruct (write_property_value _ _ _ _ He') as [e'' He''].
-  assert (ty' = 3) by (vm_compute in A'; congruence). subst ty'.
-  unfold write_value in He''. cbn [Z.eqb Pos.eqb] in He''. rewrite vbi_rejects in He'' by (unfold vbi_max; lia).
-  discriminate.
+  destruct (range_check_all (t_groups GT) (compress n) l) as [[]| |] eqn:RC; try discriminate.
+  pose proof (range_check_all_in _ _ _ _ RC Hin) as RC1.
+  assert (HR : code_range_ok GT i (VInt x) = true) by (unfold code_range_ok; rewrite F2, RC1; reflexivity).
+  unfold spec_value_ok in Hbad. rewrite F7 in Hbad.
+  destruct (spec_fits w (VInt x)) eqn:Hfit.
+  - rewrite (code_range_vs_spec i w _ n I F7 Hfit) in HR. cbn [andb] in Hbad. rewrite Hbad in HR. discriminate.
+  - rewrite Mu in HS.
+    assert (HV : exists S, assoc i st' = Some (Many S) /\ In (VInt x) S).
+    { destruct (assoc i st) as [[u|old]|]; try discriminate.
+      - injection HS as <-. rewrite assoc_store_same. eexists. split; [reflexivity|]. apply in_or_app. right. exact Hin.
+      - injection HS as <-. rewrite assoc_store_same. eexists. split; [reflexivity|]. exact Hin. }
+    destruct HV as (S & AS & HinS).
+    destruct (pack_ok_inv GT st' b n i _ tables_ok_GT HP I AS) as (ty' & pts' & e & A' & W).
+    assert (ty' = ty) by congruence. subst ty'. subst ty. rewrite Mu in W. cbn [write_stored] in W.
+    destruct (write_many_in_inv _ _ _ _ _ W HinS) as [e' He'].
+    destruct (write_property_value _ _ _ _ He') as [e'' He''].
+    exact (write_value_unfit w x e'' Hfit He'').
 Qed.
 
 (* ---- the full rejection statement and the witnesses that refute it ---- *)
@@ -205,12 +205,6 @@ Ltac wire st :=
   split; [apply in_names_b; vm_compute; reflexivity|]; split; [vm_compute; reflexivity|];
   exists st; split; vm_compute; reflexivity.
 
-(* F-C17c: SubscriptionIdentifier = [0] in SUBSCRIBE packs 02 0B 00 *)
-Lemma c17_rejects_refuted_c : reaches_wire SUBSCRIBE "Subscription Identifier" 11 (Many [VInt 0]) [2; 11; 0].
-Proof. wire [(11, Many [VInt 0])]. Qed.
-(* F-C17e: MaximumQoS = 2 in CONNACK packs 02 24 02 *)
-Lemma c17_rejects_refuted_e : reaches_wire CONNACK "Maximum QoS" 36 (One (VInt 2)) [2; 36; 2].
-Proof. wire [(36, One (VInt 2))]. Qed.
 (* F-C17f: ContentType = "a\0b" in PUBLISH packs 06 03 00 03 61 00 62 *)
 Lemma c17_rejects_refuted_f : reaches_wire PUBLISH "Content Type" 3 (One (VS (SStr [97; 0; 98]))) [6; 3; 0; 3; 97; 0; 98].
 Proof. wire [(3, One (VS (SStr [97; 0; 98])))]. Qed.
@@ -223,6 +217,6 @@ Proof. wire [(38, Many [VS (SStr [97; 98; 99])])]. Qed.
 
 Lemma c17_rejects_refuted : ~ c17_rejects_full.
 Proof.
-  intros H. destruct c17_rejects_refuted_e as (I & B & st' & S & P).
-  exact (H CONNACK [] _ 36 _ _ st' _ I eq_refl B S P).
+  intros H. destruct c17_rejects_refuted_f as (I & B & st' & S & P).
+  exact (H PUBLISH [] _ 3 _ _ st' _ I eq_refl B S P).
 Qed.
